@@ -239,9 +239,11 @@ func c11Run(c c11Case) Outcome {
 		return *o
 	}
 	desc := fmt.Sprintf("GOAWAY(last-stream-id=%d, %s) with streams %v in flight", last, peer.CodeName(c.Code), idOf)
-	// (c) streams above last must be resolved by now
+	// (c) streams above last must be resolved by now (not while the write loop of the connection sits in the
+	// caller's own blocking body reader: a copy queued behind it cannot be dealt with before the reader returns;
+	// the final "never resolved" check still applies after the release)
 	for _, t := range tags {
-		if idOf[t] > last && !calls[t].Finished() {
+		if idOf[t] > last && !calls[t].Finished() && !gated {
 			return fail("above-last-hangs", "%s: request %s on stream %d (above last-stream-id) has not been resolved although the client is quiescent and every other connection has been served", desc, t, idOf[t])
 		}
 	}
